@@ -298,4 +298,12 @@ def capacities (bytes : List Nat) : List Nat :=
   | .ok (state, _) => [state.header.transition_count, state.header.type_count, state.header.leap_count]
   | _ => []
 
+/-- `size_of` of the three element types on the 64-bit target the harness runs on:
+`Transition { i64, usize }`, `LocalTimeType { i32, bool, Option<[u8; 8]> }`, `LeapSecond { i64, i32 }`
+(declared, see props/C16.json; the harness measures the actual allocation requests) -/
+def ELEM_BYTES : Nat := 16
+
+/-- the same requests in bytes -/
+def capacityBytes (bytes : List Nat) : List Nat := (capacities bytes).map (· * ELEM_BYTES)
+
 end Chrono.M.Tz
